@@ -8,14 +8,53 @@ COMMON_NOTE = ("Trusted: Coq 8.16.1 kernel (vm_compute used; no native_compute, 
                "extraction with ExtrOcamlBasic only + OCaml driver; the Go harness (-tags verif), Python generators/differ; "
                "floating point outside the integer/dyadic domain is modelled, not verified.")
 
-CLAIMED = {
- "C17": dict(
-   category="proof",
-   text="Coq theorems (Props/C17.v) about Model/TimeDep.v for ALL disjoint minute-aligned layouts within a week inserted in any order, all non-negative duration assignments and all rational departures: accepted, lookup = frame/default, non-negative, FIFO, inside-one-frame, outside-default, total. Tie: correspondence of SetExpression/ValueAtValue/ExpressionAtValue with /repo on generated layouts x dense departure grids each run; the four predicates are also evaluated on the implementation's own values to produce a failing input when something breaks.",
-   design_ref="DESIGN.md section 6 C17",
-   technique="Coq proof (induction over element list, Q arithmetic) + differential correspondence of the extracted model",
-   note=COMMON_NOTE + " IEEE rounding in ValueAtValue compared within rel 2^-40; empty frames sharing a start with another frame are outside the compared domain (factory validation rejects empty frames)."),
+def E(category, text, technique, note_extra="", ref=""):
+    return dict(category=category, text=text, design_ref=ref or "DESIGN.md section 6", technique=technique, note=COMMON_NOTE + " " + note_extra)
+
+ENGINE_TIE = ("Tie: the executable model (Model/Engine.v, extracted) and /repo (Go harness, -tags verif) run the same generated JSON-level models and "
+              "operation histories each run; per-step snapshots (routes, every cached value of every planned stop, collections, scores) must be identical; "
+              "the property's predicate is also recomputed from the input on the implementation's own snapshots and on every solution the real solver delivers. ")
+
+ALL = {
+ "C01": E("proof", "Coq theorems (Props/C01.v) for ALL inputs and ALL fresh operation histories: every reachable state keeps every resource level of every route prefix in [0, capacity] and the distance within max_distance (engine invariant Inv/InvT + specification lemmas). " + ENGINE_TIE,
+          "Coq proof (invariant by induction over histories, refinement cache = from-scratch) + differential correspondence + input-level oracle",
+          "max_stops / attributes / no-mix are guarded by estimates only in the code: decided by the oracle on solver output and the estimate correspondence (C09), not by a theorem yet."),
+ "C02": E("proof", "Coq theorems (Props/C02.v): on every reachable state service starts no earlier than arrival, inside a window or at its close, shift end / max duration / max wait (stop, vehicle) hold; window slot lookup of common/rangecheck.go proved equal to the direct definition. " + ENGINE_TIE,
+          "Coq proof (engine invariant + window-lookup lemma) + differential correspondence + input-level oracle",
+          "plain integer matrices in the modelled core; time-dependent travel enters through C17's model; triangle-inequality flag (API only) not modelled."),
+ "C03": E("proof", "Coq theorems (Props/C03.v): every stop on at most one route, routes well shaped, every unit whole and on one route, on all reachable states. " + ENGINE_TIE,
+          "Coq proof (invariant) + correspondence + oracle (precedence order, direct adjacency, wholeness on implementation snapshots)",
+          "order within a unit / direct adjacency / groups / alternates / fixed stops are decided by the oracle on implementation snapshots and solver output, not yet by theorems."),
+ "C04": E("proof", "Coq theorems (Props/C04.v): in every reachable state the cached cells of every route equal the independent forward pass from_scratch over the route's stop sequence; history independence; the forward-walk equations in terms of the input. " + ENGINE_TIE,
+          "Coq proof (refinement: incremental propagation = from-scratch recomputation, induction over histories) + correspondence + oracle from the input"),
+ "C05": E("proof", "Coq theorems (Props/C05.v): total = sum of terms, terms = recomputation from routes, unplanned penalty = penalties of exactly the units not on routes, history independence. " + ENGINE_TIE,
+          "Coq proof (invariant scores_ok/colls_ok) + correspondence (exact term values per step) + oracle"),
+ "C06": E("proof", "Coq theorems (Props/C06.v) over ALL operator-result oracles and ALL schedules of the parallel-solver LTS: delivered scores strictly decreasing, first = (min) start score, last = best, nothing lost at close; Reset-to-better refuted and excluded by hypothesis. Tie: best-tracking projection of the skeletons regenerated from solve_solver.go / solve_solver_parallel.go equals the reviewed reference (Coq obligation each run) + score sequences of the real solver under many option sets.",
+          "Coq proof on protocol model + regenerated-skeleton obligations + recorded channel traces",
+          "the LTS is hand-written; its relation to the code is the fingerprint equality and the traces, not a proof."),
+ "C07": E("proof", "Coq theorems (Props/C07.v): exec_move / unplan_unit either succeed completely or leave routes, cached values, scores exactly and collections as sets unchanged; the undo never fails on reachable states. " + ENGINE_TIE + "Failed calls of the implementation are compared snapshot-for-snapshot with the preceding state.",
+          "Coq proof (rollback = identity under the engine invariant) + correspondence on rollback-heavy histories (moves built without estimates)"),
+ "C08": E("proof", "Coq theorems (Props/C08.v): planned/unplanned partition, no duplicates, planned iff all stops on routes, unplanned iff none, on all reachable states. " + ENGINE_TIE,
+          "Coq proof (invariant) + correspondence (collections as sets per step) + oracle"),
+ "C11": E("proof", "Coq theorems (Props/C11.v): in a heap model of Copy, fresh treatment of every mutable field implies copy and original observe the same at copy time and are independent under all later writes; an aliased field refutes it. Tie: the field table of solutionImpl/Copy regenerated from /repo equals the reference and satisfies the discipline (Coq obligations each run) + copy-then-mutate histories with snapshots of every live solution vs the model.",
+          "Coq proof (heap model, frame) + regenerated-table obligation + differential histories",
+          "that Go operations write only through their own solution is checked dynamically, not proved; concurrent use is left to the race detector (C14 thorough)."),
+ "C12": E("proof", "Coq theorems (Props/C12.v): a random stream shared by the order-generator goroutine and its consumer gives schedule-independent draws exactly when no phase has draws on both sides; refuted otherwise (witness). Tie: skeleton of SequenceGeneratorChannel / sequenceGenerator regenerated each run; repeated identical runs of the real solver. The unchanged code shares the stream: known finding.",
+          "Coq proof (positive + refutation) + regenerated-skeleton obligation + repeated runs"),
+ "C13": E("proof", "Coq theorems (Props/C13.v): what the cycle barrier orders; barrier is not quiescence (two schedules, different finals: refutation); one run / one cycle is schedule independent. Tie: hand-off projection of the regenerated skeleton. Known finding on the unchanged tree.",
+          "Coq proof of refutation + partial positive theorem + regenerated-skeleton obligation + repeated runs"),
+ "C14": E("proof", "Coq theorems (Props/C14.v): the lockset checker is complete for its definition; mutex exclusion. The checker is evaluated (vm_compute) on the skeletons regenerated from /repo each run: every shared variable with conflicting accesses and no common mutex is reported; listed ones are known findings, any other is a violation. Thorough: Go race detector.",
+          "Coq-evaluated lockset discipline on regenerated skeletons + proof of checker completeness / mutex exclusion",
+          "partial: happens-before through channels is not credited; callee-internal races only via the race detector."),
+ "C15": E("proof", "Coq theorems (Props/C15.v) for ALL schedules and budgets of the parallel-solver LTS: performed <= budget, reported = performed, parallelism bound, closed is final, every state can close within a bounded number of steps after cancellation, zero budget, barrier. Tie: protocol projection of the regenerated skeletons + option grid on the real solver with event counts and close times.",
+          "Coq proof (invariants over the LTS) + regenerated-skeleton obligations + option-grid runs",
+          "partial: wall-clock 'shortly after' checked with slack; Go timers/scheduler not modelled."),
+ "C17": E("proof", "Coq theorems (Props/C17.v) about Model/TimeDep.v for ALL disjoint minute-aligned layouts within a week inserted in any order, all non-negative duration assignments and all rational departures: accepted, lookup = frame/default, non-negative, FIFO, inside-one-frame, outside-default, total. Tie: correspondence of SetExpression/ValueAtValue/ExpressionAtValue with /repo on generated layouts x dense departure grids each run; the four predicates are also evaluated on the implementation's own values.",
+          "Coq proof (induction over element list, Q arithmetic) + differential correspondence of the extracted model",
+          "IEEE rounding in ValueAtValue compared within rel 2^-40; empty frames sharing a start with another frame are outside the compared domain (factory validation rejects empty frames)."),
 }
+READY = ["C06", "C11", "C12", "C13", "C14", "C15", "C17"]
+CLAIMED = {k: ALL[k] for k in READY}
 NA_REASON = "check under construction (not yet claimed)"
 
 checks, na = [], []
